@@ -18,6 +18,15 @@
 (* observations a set that depends on earlier observations, so the judgement  *)
 (* is done on the history, not by comparing with one predicted outcome).      *)
 (*                                                                            *)
+(* Emitters: Step_edge.cfg (VIEW + one shortest schedule per edge of the      *)
+(* scenario graph), Step_focus.cfg (the same for the membership-churn         *)
+(* sub-language: Subscribe / Unsubscribe / receive on-off / Publish - these   *)
+(* always run completely), Step_all.cfg (all sequences to a small depth),     *)
+(* Step_sim.cfg (-simulate, long random ones).  The configuration is not part *)
+(* of a scenario: the check driver pairs every scenario with configurations   *)
+(* from StepConfigs (back-end x ParallelDispatch x WorkerPoolSize x           *)
+(* BufferSize), always including a lossless one.                              *)
+(*                                                                            *)
 (* A step that turns out not to be applicable in the real run (e.g. readon    *)
 (* for a subscriber whose Subscribe is still blocked) is logged as `skip`.    *)
 (***************************************************************************)
@@ -27,7 +36,8 @@ CONSTANTS Configs,    \* set of [a, n, w, par, buf]: back-end, capacity, WorkerP
           Subs, Pubs, \* subscriber / publisher names (strings)
           MaxBurst,   \* largest publish burst
           MaxMsgs,    \* messages per behaviour
-          Depth       \* driver steps per behaviour (including the constructor)
+          Depth,      \* driver steps per behaviour (including the constructor)
+          Focus       \* TRUE: only Subscribe / Unsubscribe / receive on-off / Publish (membership churn, the C08 window)
 
 Backends == {<<"chan", 0>>, <<"chan", 1>>, <<"queue", 0>>, <<"queue", 1>>, <<"deque", 0>>, <<"deque", 1>>,
              <<"nbdeque", 1>>, <<"lifo", 1>>}
@@ -136,13 +146,13 @@ Cancel(r) == /\ r \in recent
              /\ Do("cancel", "", r.id)
              /\ UNCHANGED <<cfg, sub, reading, backlog, atrisk, changes, down, waits, nmsg>>
 
-Step == \/ \E s \in Subs, x \in BOOLEAN : Subscribe(s, x) \/ Unsubscribe(s, x)
+Step == \/ \E s \in Subs, x \in BOOLEAN : (Focus => ~x) /\ (Subscribe(s, x) \/ Unsubscribe(s, x))
         \/ \E s \in Subs : ReadOn(s) \/ ReadOff(s)
         \/ \E p \in Pubs, b \in 1..MaxBurst : Publish(p, b, FALSE)
-        \/ \E p \in Pubs : Publish(p, 1, TRUE)
-        \/ \E x \in BOOLEAN : Stats(x)
-        \/ Wait \/ Stop \/ CancelParent
-        \/ \E r \in recent : Cancel(r)
+        \/ ~Focus /\ \/ \E p \in Pubs : Publish(p, 1, TRUE)
+                     \/ \E x \in BOOLEAN : Stats(x)
+                     \/ Wait \/ Stop \/ CancelParent
+                     \/ \E r \in recent : Cancel(r)
 
 Next == Len(hist) < Depth /\ Step
 Spec == Init /\ [][Next]_vars
